@@ -37,8 +37,11 @@ def _formula(rng):
     rhs = " + ".join(terms)
     if rng.random() < 0.2:
         rhs = "0 + " + rhs
-    if rng.random() < 0.35:
+    r = rng.random()
+    if r < 0.35:
         rhs += " + " + gen_dm.rand_group(rng)
+    elif r < 0.43:
+        rhs += " + " + gen_dm.rand_group_pair(rng)
     return "y ~ " + rhs
 
 
